@@ -1765,3 +1765,206 @@ Proof.
       destruct (R4 Hlt) as (s & l & ds & dl & Hs & Hsd & Hsl).
       eapply final_zero; eauto. lia.
 Qed.
+
+(* ================= C02_sound, modulo the wflip chains ================= *)
+(* The non-wflip clauses are proved (assemble_static_sound); the execution of a stored chain is proved
+   (wflip_exec).  What is left is the existence of the stored chain for every wflip statement of the model's output
+   (wflip_chain_ok: sharing-table invariant + auxiliary placement). *)
+Theorem assemble_sound_modulo_chains ww ver P segs words lbls :
+  assemble_model ww ver true P = Ok (segs, words, lbls) ->
+  lexical_labels P = true -> reserves_nonneg ww P lbls = true ->
+  (forall L, place ww (lookup lbls) P 0 = Some L -> Forall (wflip_chain_ok ww (image_of segs words) L lbls) L) ->
+  Denotes ww (image_of segs words) P lbls.
+Proof.
+  intros H Hlex Hres Hchains.
+  destruct (assemble_static_sound _ _ _ _ _ _ H Hlex Hres) as (L & Hpl & Hload & Hst).
+  exists L. split; [exact Hpl|]. split; [exact Hload|].
+  specialize (Hchains L Hpl). apply Forall_forall. intros p Hp.
+  rewrite Forall_forall in Hst, Hchains. specialize (Hst p Hp). specialize (Hchains p Hp).
+  unfold stmt_ok_static, wflip_chain_ok, stmt_ok in *.
+  destruct (pl_stmt p) as [f j ?|ea ev er ?|e ?|name ?|? ? ?|? ? ? ? ?|e ?|e ?]; auto.
+  destruct Hchains as (A & V & R & cs & E1 & E2 & E3 & (B1 & B2 & B3 & B4 & B5) & Hne & Hnx & Hch & Hfl & Haux).
+  exists A, V, R. repeat split; auto; try lia.
+  eapply wflip_exec; eauto. rewrite Hfl. apply flip_bits_nodup.
+Qed.
+
+(* ================= C02_aux_placement, first part: no chain op on the input-cell op (the fix of F16) ================= *)
+Section AuxIO.
+Variable ww : N.
+Variable ver : N.
+Notation wd := (wd ww).
+Notation dwd := (dwd ww).
+
+(* the model's test is the machine's test *)
+Lemma covers_input_bit_eq a : 0 <= a -> covers_input ww (Z.to_N a) = covers_input_bit ww a.
+Proof.
+  intros Ha. unfold covers_input, covers_input_bit, in_addr, dw, Layout.dwd, Layout.wd, wz.
+  set (wn := w ww).
+  assert (E1 : (Z.to_N a <=? 3 * wn + ww + 1)%N = (a <=? 3 * Z.of_N wn + Z.of_N ww + 1)).
+  { destruct (a <=? 3 * Z.of_N wn + Z.of_N ww + 1) eqn:E; [apply N.leb_le; apply Z.leb_le in E; lia|].
+    apply N.leb_gt. apply Z.leb_gt in E. lia. }
+  assert (E2 : (3 * wn + ww + 1 <? Z.to_N a + 2 * wn)%N = (3 * Z.of_N wn + Z.of_N ww + 1 <? a + 2 * Z.of_N wn)).
+  { destruct (3 * Z.of_N wn + Z.of_N ww + 1 <? a + 2 * Z.of_N wn) eqn:E; [apply N.ltb_lt; apply Z.ltb_lt in E; lia|].
+    apply N.ltb_ge. apply Z.ltb_ge in E. lia. }
+  now rewrite E1, E2.
+Qed.
+
+Lemma covers_step a : covers_input_bit ww a = true -> covers_input_bit ww (a + dwd) = false.
+Proof.
+  unfold covers_input_bit. intros H. apply andb_true_iff in H. destruct H as [_ H]. apply Z.ltb_lt in H.
+  apply andb_false_iff. left. apply Z.leb_gt. lia.
+Qed.
+
+Lemma skip_input_op_nc nextw wf nw wf' :
+  skip_input_op ww 2 nextw wf = (nw, wf') -> covers_input_bit ww nw = false.
+Proof.
+  cbn [skip_input_op]. destruct (covers_input_bit ww nextw) eqn:E1.
+  - rewrite (covers_step _ E1). intros H. injection H as <- _. now apply covers_step.
+  - intros H. now injection H as <- _.
+Qed.
+
+Lemma pop_hole_nc first pads : forall i a rest,
+  pop_hole ww first pads = (Some (i, a), rest) -> covers_input_bit ww a = false.
+Proof.
+  induction pads as [|h pads IH]; intros i a rest H; cbn [pop_hole] in H; [discriminate|].
+  destruct (covers_input_bit ww (first + wd * Z.of_nat h)) eqn:E; [eauto|]. now injection H as <- <- <-.
+Qed.
+
+Lemma spot_nc st st1 wl idx addr :
+  get_wflip_spot ww st = (st1, (wl, idx, addr)) -> covers_input_bit ww addr = false.
+Proof.
+  unfold get_wflip_spot. destruct (pop_hole ww (b_first st) (b_pads st)) as [[[i a]|] rest] eqn:Ep.
+  - intros H. injection H as _ _ _ <-. eapply pop_hole_nc; eauto.
+  - destruct (skip_input_op ww 2 (b_nextw st) (b_wf st)) as [nw wf] eqn:Es.
+    intros H. injection H as _ _ _ <-. eapply skip_input_op_nc; eauto.
+Qed.
+
+(* every `:wflips:k` entry of the label table holds an address that does not cover the input bit *)
+Definition lbl_nc (kv : string * Z) : Prop := prefix_wflips (fst kv) = true -> covers_input_bit ww (snd kv) = false.
+
+Lemma Forall_dict_set l k v : Forall lbl_nc l -> lbl_nc (k, v) -> Forall lbl_nc (dict_set l k v).
+Proof.
+  intros Hl Hkv. induction l as [|[k' v'] l IH]; cbn [dict_set]; [now constructor|].
+  inversion Hl as [|? ? H1 H2]; subst. destruct (String.eqb k' k) eqn:E.
+  - apply String.eqb_eq in E. subst k'. constructor; assumption.
+  - constructor; [assumption|now apply IH].
+Qed.
+
+Lemma wflip_loop_nc rest : forall st ret last,
+  Forall lbl_nc (b_labels st) -> Forall lbl_nc (b_labels (wflip_loop ww st ret rest last)).
+Proof.
+  induction rest as [|x rest IH]; intros st ret last H; cbn [wflip_loop].
+  - now destruct (set_ref_frame st last ret) as (-> & _).
+  - destruct (dict_find (b_dict st) ret (x :: rest)) as [e|].
+    + now destruct (set_ref_frame st last e) as (-> & _).
+    + destruct (get_wflip_spot ww st) as [st1 [[wl idx] addr]] eqn:Es.
+      pose proof (spot_frame ww st) as F. rewrite Es in F. cbn [fst] in F. destruct F as (F1 & _ & _).
+      apply IH.
+      destruct (set_ref_frame (dict_add (set_ref (insert_wflip_label st1 addr) last addr) ret (x :: rest) addr) (wl, idx) x)
+        as (-> & _).
+      cbn [dict_add b_labels]. destruct (set_ref_frame (insert_wflip_label st1 addr) last addr) as (-> & _).
+      cbn [insert_wflip_label b_labels]. apply Forall_dict_set; [now rewrite F1|].
+      intros _. cbn [snd]. eapply spot_nc; eauto.
+Qed.
+
+Lemma resolve_loop_nc strict ops : forall st st',
+  resolve_loop ww ver strict st ops = Ok st' -> Forall lbl_nc (b_labels st) -> Forall lbl_nc (b_labels st').
+Proof.
+  induction ops as [|op ops IH]; intros st st' H Hl; cbn [resolve_loop] in H.
+  - now injection H as <-.
+  - destruct (resolve_step ww ver strict st op) as [st1| |] eqn:E; cbn [bind] in H; try discriminate.
+    apply (IH _ _ H). clear IH H.
+    destruct op as [f j|a v r|n|s wsa|a]; cbn [resolve_step] in E.
+    + destruct (exact_eval (b_labels st) f); [|discriminate]. destruct (exact_eval (b_labels st) j); [|discriminate].
+      destruct (strict && _); [discriminate|]. now injection E as <-.
+    + destruct (exact_eval (b_labels st) a) as [A|]; [|discriminate].
+      destruct (exact_eval (b_labels st) v) as [V|]; [|discriminate].
+      destruct (exact_eval (b_labels st) r) as [R|]; [|discriminate].
+      destruct (strict && _); [discriminate|].
+      unfold insert_wflip_ops in E. destruct (V =? 0); [now injection E as <-|].
+      destruct (negb (in_memory ww V)); [discriminate|].
+      destruct (map _ _) as [|x rest]; injection E as <-; [exact Hl|]. now apply wflip_loop_nc.
+    + now injection E as <-.
+    + unfold insert_new_segment in E.
+      destruct (close_and_add_segment ww ver st) as [stc| |] eqn:Ec; cbn [bind] in E; try discriminate.
+      injection E as <-. cbn [b_labels].
+      unfold close_and_add_segment in Ec. destruct (b_nextw st =? b_first st); [now injection Ec as <-|].
+      destruct (add_segment_to_fjm ww ver (b_wr st) (b_first st) (b_nextw st) (b_fj st) (b_wf st)) as [[wr c]| |];
+        cbn [bind] in Ec; try discriminate. now injection Ec as <-.
+    + unfold insert_reserve_bits in E.
+      destruct (add_segment_to_fjm ww ver (b_wr st) (b_first st) a (b_fj st) []) as [[wr c]| |];
+        cbn [bind] in E; try discriminate. now injection E as <-.
+Qed.
+
+Lemma in_lookup (l : labels) k v : In (k, v) l -> exists v', lookup l k = Some v'.
+Proof.
+  induction l as [|[k' x] l IH]; intros H; [contradiction|]. cbn [lookup].
+  destruct (String.eqb k' k) eqn:E; [eauto|]. destruct H as [H|H]; [|auto].
+  injection H as -> _. now rewrite String.eqb_refl in E.
+Qed.
+
+Lemma keys_no_prefix st : keys_inv st -> forall k v, lookup (p_labels st) k = Some v -> prefix_wflips k = false.
+Proof.
+  intros Hk k v H. apply Hk in H. destruct H as [Hu | [[j [_ E]] | E]]; try subst k.
+  - unfold user_name in Hu. apply andb_true_iff in Hu. destruct Hu as [_ Hu]. now apply negb_true_iff in Hu.
+  - reflexivity.
+  - reflexivity.
+Qed.
+
+(* for every program the model assembles, no auxiliary wflip op (label `:wflips:k`) is on the input-cell op *)
+Theorem assemble_aux_not_on_io strict P segs words lbls :
+  assemble_model ww ver strict P = Ok (segs, words, lbls) -> lexical_labels P = true -> aux_on_io ww lbls = false.
+Proof.
+  unfold assemble_model. intros H Hlex.
+  destruct (resolve_macros ww P) as [[ops l0]| |] eqn:Er; cbn [bind] in H; try discriminate.
+  destruct (labels_resolve ww ver strict ops l0) as [st| |] eqn:El; cbn [bind] in H; try discriminate.
+  destruct (negb (first_op_assembled (b_wr st))); [discriminate|].
+  destruct (negb (packable ww (b_wr st))); [discriminate|].
+  injection H as _ _ <-.
+  (* the preprocessor's table has no `:wflips:` name *)
+  assert (H0 : Forall lbl_nc l0).
+  { unfold resolve_macros in Er.
+    destruct (pre_loop ww pre_init P) as [st0| |] eqn:Epl; cbn [bind] in Er; try discriminate.
+    destruct (pre_finish st0) as [st0'| |] eqn:Ef; cbn [bind] in Er; try discriminate.
+    injection Er as _ <-.
+    assert (Hk0 : keys_inv pre_init) by (intros k v X; discriminate).
+    destruct (pre_loop_spec ww P pre_init st0 _ Epl Hk0 Hlex (extends_refl _)) as (_ & _ & _ & _ & _ & Hk & _).
+    assert (Hk' : keys_inv st0').
+    { unfold pre_finish in Ef. cbn [p_used p_addr p_labels p_ops p_seg] in Ef.
+      destruct (existsb (Z.eqb 0) (p_used st0)).
+      - now injection Ef as <-.
+      - apply insert_label_spec in Ef; [|exact Hk|now right]. now destruct Ef. }
+    apply Forall_forall. intros [k v] Hin Hp. cbn [fst] in Hp.
+    destruct (in_lookup _ _ _ Hin) as [v' Hv']. rewrite (keys_no_prefix _ Hk' _ _ Hv') in Hp. discriminate. }
+  unfold labels_resolve in El. destruct ops as [|[| | |s wsa|] ops']; try discriminate.
+  destruct (resolve_loop ww ver strict _ ops') as [st1| |] eqn:Eloop; cbn [bind] in El; try discriminate.
+  pose proof (resolve_loop_nc _ _ _ _ Eloop H0) as H1.
+  assert (E : b_labels st = b_labels st1).
+  { unfold close_and_add_segment in El. destruct (b_nextw st1 =? b_first st1); [now injection El as <-|].
+    destruct (add_segment_to_fjm ww ver (b_wr st1) (b_first st1) (b_nextw st1) (b_fj st1) (b_wf st1)) as [[wr c]| |];
+      cbn [bind] in El; try discriminate. now injection El as <-. }
+  rewrite E. unfold aux_on_io.
+  destruct (existsb _ (b_labels st1)) eqn:Ex; [|reflexivity].
+  apply existsb_exists in Ex. destruct Ex as ([k v] & Hin & Hc). cbn [fst snd] in Hc.
+  apply andb_true_iff in Hc. destruct Hc as [Hc C3]. apply andb_true_iff in Hc. destruct Hc as [C1 C2].
+  rewrite Forall_forall in H1. specialize (H1 _ Hin C1). cbn [snd] in H1.
+  apply Z.leb_le in C2. rewrite covers_input_bit_eq in C3 by exact C2. congruence.
+Qed.
+
+End AuxIO.
+
+(* the flip addresses insert_wflip_ops walks through are the spec's flip_bits *)
+Lemma model_flips_eq ww A V :
+  0 <= A -> 0 < V ->
+  map Z.to_N (map (fun i => A + i) (filter (Z.testbit V) (bit_list ww))) = flip_bits ww (Z.to_N A) (Z.to_N V).
+Proof.
+  intros HA HV. unfold flip_bits, bit_list, bit_indices.
+  assert ((Z.to_N V =? 0)%N = false) as -> by (apply N.eqb_neq; lia).
+  assert (N.to_nat (DenoteSpec.wN ww) = Z.to_nat (wd ww)) as -> by (unfold DenoteSpec.wN, Layout.wd, wz; lia).
+  induction (seq 0 (Z.to_nat (wd ww))) as [|i l IH]; [reflexivity|].
+  cbn [map filter].
+  assert (Ht : Z.testbit V (Z.of_nat i) = N.testbit (Z.to_N V) (N.of_nat i)).
+  { rewrite <- (Z2N.id V) at 1 by lia. rewrite <- nat_N_Z. apply N2Z.inj_testbit. }
+  rewrite Ht. destruct (N.testbit (Z.to_N V) (N.of_nat i)); cbn [map]; rewrite IH; [|reflexivity].
+  f_equal. lia.
+Qed.
